@@ -618,11 +618,9 @@ def _device_defaults() -> str:
 
 
 def _port_lookup() -> dict:
-    tree = parse("utils/validation/port.py")
-    for n in ast.walk(tree):
-        if isinstance(n, ast.AnnAssign) and _u(n.target) == "PORT_LOOKUP":
-            return {k.arg: ast.literal_eval(k.value) for k in n.value.keywords}
-    raise Shape("PORT_LOOKUP")
+    # `dict(K=v, …)` or a dict literal, annotated or not (round 7: one reader for the table, in extract/acl_parse.py)
+    from harness.extract import acl_parse
+    return dict(acl_parse._dict_table(acl_parse._module_value(parse(acl_parse.PORT), "PORT_LOOKUP"), "PORT_LOOKUP", acl_parse._int_const))
 
 
 def _frame_lean() -> str:
